@@ -126,6 +126,35 @@ Theorem C05_exclusion_files_all_loaded :
 Proof. exact exclusion_files_all_loaded_lemma. Qed.
 Print Assumptions C05_exclusion_files_all_loaded.
 
+(* GenerateCrawlConfig leaves the operator's entries exactly as typed (no case folding, nothing
+   dropped, nothing added but the two default hosts): the scope is judged against what the
+   operator wrote. *)
+Theorem C05_gen_cfg_keeps_operator_lists : forall oc : opcfg,
+  inc_hosts (gen_cfg oc) = inc_hosts oc /\ inc_strings (gen_cfg oc) = inc_strings oc
+  /\ exc_strings (gen_cfg oc) = exc_strings oc.
+Proof. exact gen_cfg_other_lemma. Qed.
+Print Assumptions C05_gen_cfg_keeps_operator_lists.
+
+Theorem C05_gen_cfg_exclude_hosts_exact : forall (oc : opcfg) h,
+  In h (exc_hosts (gen_cfg oc)) <-> In h (exc_hosts oc) \/ h = archive_org \/ h = archive_it_org.
+Proof. exact gen_cfg_exact_lemma. Qed.
+Print Assumptions C05_gen_cfg_exclude_hosts_exact.
+
+(* Letter case matters in the string filters (paths and queries are case-sensitive): with
+   C05_substring_test_exact and the two theorems above, here on the operator's spelling. *)
+Theorem C05_string_filters_case_sensitive :
+  let ex := gen_cfg (OC [] [] [] [bs "/Private/"; bs "sessionID="]) in
+  let inc := gen_cfg (OC [] [bs "/Docs/"] [] []) in
+  let h := bs "www.example.com" in
+  in_scope ex h (bs "https://www.example.com/Private/report.pdf") [] = false
+  /\ in_scope ex h (bs "https://www.example.com/private/report.pdf") [] = true
+  /\ in_scope ex h (bs "https://www.example.com/login?sessionID=abc123") [] = false
+  /\ in_scope ex h (bs "https://www.example.com/login?sessionid=abc123") [] = true
+  /\ in_scope inc h (bs "https://www.example.com/Docs/a.css") [] = true
+  /\ in_scope inc h (bs "https://www.example.com/docs/old.css") [] = false.
+Proof. exact string_filters_case_sensitive_lemma. Qed.
+Print Assumptions C05_string_filters_case_sensitive.
+
 (* NormalizeURL's tests: http/https only, host not localhost / 127.0.0.1, host contains a dot. *)
 Theorem C05_shape_ok_spec : forall proto hn,
   shape_ok proto hn = true <->
